@@ -20,6 +20,7 @@ RULE = ('Exhaustive: for collections of length n=0..4 (quick) / 0..6 (thorough) 
         'with reads, 50 steps. Oracle: a Python list of the arrays. Non-trivial: the expression selects >= 2 signatures or raises; a '
         'history with >= 5 mutations; an equality pair that differs in exactly one place. Enumerated expressions are distinct by '
         'construction, generated ones by hash.')
+RULE += ' Further: range objects as indices (enumerated and generated); pickled / deep-copied containers; equality pairs of reference sets with identical release metadata; sub-collections sliced off a SignatureList stay independent under later mutations.'
 ASSUMPTIONS = ['a Python bool used as a scalar index is outside the domain (list and NumPy semantics disagree)',
                'h5py/HDF5 are trusted to return the bytes that were written (C12 checks the round trip)']
 ENUMERATED = {'quick': ['all int indices, slices, index lists (len<=3) and boolean masks for n=0..4 x 3 container types'],
